@@ -75,6 +75,8 @@ func ghostIntrinsicHeaps(fn *ssa.Function) []string {
 		return []string{"G:xddepth"}
 	case "verifHeight":
 		return []string{"Mdom:map[string]interface{}", "Msel:map[string]interface{}"}
+	case "verifSoleKey":
+		return []string{"Mdom:map[string]interface{}", "Mlen:map[string]interface{}"}
 	case "verifJsonText", "verifJsonErr", "verifJsonDecodedAs", "verifGobBytes", "verifGobErr", "verifGobDecodedAs":
 		return []string{"Mdom:map[string]interface{}", "Msel:map[string]interface{}", "Mlen:map[string]interface{}"}
 	}
@@ -120,6 +122,16 @@ func (c *FnCtx) ghostIntrinsic(fr *Frame, st *State, fn *ssa.Function, args []*T
 		return []*Term{c.getCell(st, c.curFrame.iterByLoop[int(k)].count)}, true
 	case "verifHeight":
 		return []*Term{c.height(st, args[0])}, true
+	case "verifSoleKey": // the key of a single-entry map: a map of length 1 has exactly this key
+		mt := types.NewMap(types.Typ[types.String], types.NewInterfaceType(nil, nil))
+		mh := c.mapHeaps(st, mt)
+		c.mapFacts(st, mt, args[0])
+		dom := c.hget(st, mh.dom, mh.sdom, args[0])
+		ln := c.hget(st, mh.ln, mh.sln, args[0])
+		w := ts.UF("solekey", SString, dom)
+		empty := ts.ConstArr(ArrOf(mh.ks, SBool), ts.Bool(false))
+		c.addFactT(st, w, ts.Implies(ts.Eq(ln, ts.Int(1)), ts.Eq(dom, ts.Store(empty, w, ts.Bool(true)))))
+		return []*Term{w}, true
 	case "verifMapsSameExcept", "verifMapSameExceptKey", "verifMapSameExceptKeys", "verifOldHas", "verifOldGet", "verifOldLen", "verifOldTrueB", "verifGrowsB", "verifMapUnchanged":
 		return c.heapRelIntrinsic(st, fn.Name(), args), true
 	case "verifInfallibleWriter": // the writer is an in-memory buffer: Write never fails and accepts all bytes
